@@ -11,6 +11,16 @@ import z3
 _num = (int, float, Fraction)
 
 
+class Undef:
+    """value of an uninitialised variable / of a read that raised; absorbing for arithmetic"""
+
+    def __repr__(self):
+        return "UNDEF"
+
+
+UNDEF = Undef()
+
+
 class NF:
     """float value that may be NaN (domain R+NaN).  nan: bool|BoolRef, val: number|ArithRef"""
     __slots__ = ("nan", "val")
@@ -129,6 +139,8 @@ def implies(a, b):
 
 
 def truth(x):
+    if x is UNDEF:
+        return False
     """C / Python truthiness as a Boolean"""
     if isinstance(x, (bool, z3.BoolRef)):
         return x
@@ -150,6 +162,10 @@ def ite(c, a, b):
         return a
     if c is False:
         return b
+    if a is UNDEF:
+        return b
+    if b is UNDEF:
+        return a
     if a is b:
         return a
     if isinstance(a, NF) or isinstance(b, NF):
@@ -190,6 +206,8 @@ def _nf2(op, a, b):
 
 
 def _arith(a, b, pyop, zop):
+    if a is UNDEF or b is UNDEF:
+        return UNDEF
     if isinstance(a, NF) or isinstance(b, NF):
         return _nf2(lambda x, y: _arith(x, y, pyop, zop), a, b)
     a, b = b2i(a), b2i(b)
@@ -206,6 +224,8 @@ def _c(x):
 
 
 def add(a, b):
+    if a is UNDEF or b is UNDEF:
+        return UNDEF
     if not is_sym(b) and not isinstance(b, bool) and b == 0 and not isinstance(b, float):
         return a
     if not is_sym(a) and not isinstance(a, bool) and a == 0 and not isinstance(a, float):
@@ -214,12 +234,16 @@ def add(a, b):
 
 
 def sub(a, b):
+    if a is UNDEF or b is UNDEF:
+        return UNDEF
     if not is_sym(b) and not isinstance(b, bool) and b == 0 and not isinstance(b, float):
         return a
     return _arith(a, b, lambda x, y: x - y, lambda x, y: x - y)
 
 
 def mul(a, b):
+    if a is UNDEF or b is UNDEF:
+        return UNDEF
     for p, q in ((a, b), (b, a)):
         if not is_sym(p) and not isinstance(p, (bool, float)):
             if p == 1:
@@ -230,6 +254,8 @@ def mul(a, b):
 
 
 def neg(a):
+    if a is UNDEF:
+        return UNDEF
     if isinstance(a, NF):
         return NF(a.nan, neg(a.val))
     a = b2i(a)
@@ -244,6 +270,8 @@ def _pydiv(x, y):
 
 def div(a, b):
     """true division (real result); caller handles the divisor == 0 event"""
+    if a is UNDEF or b is UNDEF:
+        return UNDEF
     if isinstance(a, NF) or isinstance(b, NF):
         return _nf2(div, a, b)
     a, b = b2i(a), b2i(b)
@@ -279,6 +307,8 @@ def mod(a, b):
 
 
 def floor_(x):
+    if x is UNDEF:
+        return UNDEF
     """floor to integer"""
     if isinstance(x, NF):
         raise ValueError("floor of NaN-able")
@@ -290,6 +320,8 @@ def floor_(x):
 
 
 def trunc(x):
+    if x is UNDEF:
+        return UNDEF
     """C float->int conversion (toward zero)"""
     if isinstance(x, NF):
         x = x.val
@@ -305,6 +337,8 @@ def trunc(x):
 
 
 def to_real(x):
+    if x is UNDEF:
+        return UNDEF
     if isinstance(x, NF):
         return x
     x = b2i(x)
@@ -314,6 +348,8 @@ def to_real(x):
 
 
 def abs_(x):
+    if x is UNDEF:
+        return UNDEF
     if isinstance(x, NF):
         return NF(x.nan, abs_(x.val))
     x = b2i(x)
@@ -333,6 +369,8 @@ def _leaves(x):
 
 
 def _cmp(a, b, pyop, zop, nan_result):
+    if a is UNDEF or b is UNDEF:
+        return False
     if isinstance(a, NF) or isinstance(b, NF):
         a, b = to_nf(a), to_nf(b)
         r = _cmp(a.val, b.val, pyop, zop, nan_result)
